@@ -607,6 +607,21 @@ func init() {
 		*dst = deepCopy(src)
 		return iface{}
 	}
+	h["maps.clone"] = func(fr *frame, args []value) value {
+		it := args[0].(iface)
+		switch m := it.v.(type) {
+		case map[value]value:
+			if m == nil {
+				return it
+			}
+			n := map[value]value{}
+			for k, v := range m {
+				n[k] = v
+			}
+			return iface{t: it.t, v: n}
+		}
+		panic("maps.clone of " + fmt.Sprintf("%T", it.v))
+	}
 	h["reflect.DeepEqual"] = func(fr *frame, args []value) value { return deepEqSym(args[0], args[1]) }
 	h["runtime.Gosched"] = func(fr *frame, args []value) value { return nil }
 	initNatives()
@@ -684,6 +699,11 @@ func harnessIntrinsic(fn *ssa.Function) nativeFn {
 		}
 	case "verifSymbolicMapOrder":
 		return func(fr *frame, args []value) value { fr.i.R.MapOrderSymbolic = args[0].(bool); return nil }
+	case "verifSymbolicMapOrderIn":
+		return func(fr *frame, args []value) value {
+			fr.i.R.MapOrderFuncs = append(fr.i.R.MapOrderFuncs, str(args[0]))
+			return nil
+		}
 	case "verifClk":
 		return func(fr *frame, args []value) value { return int(fr.i.R.S.Clk) }
 	case "verifFail":
